@@ -410,7 +410,31 @@ func (inf *c04Infra) mint(desc map[string]any) (string, error) {
 		return "", err
 	}
 
-	return sig.CompactSerialize()
+	tok, err := sig.CompactSerialize()
+	if err != nil {
+		return "", err
+	}
+
+	// other spellings of the same token, which go-jose's lenient base64 decoder reads as the same octets
+	switch getStr(desc, "respell") {
+	case "bits":
+		// set an unused bit of the last character of the signature
+		const alphabet = "ABCDEFGHIJKLMNOPQRSTUVWXYZabcdefghijklmnopqrstuvwxyz0123456789-_"
+
+		sigPart := tok[strings.LastIndex(tok, ".")+1:]
+		if len(sigPart)%4 == 0 {
+			return "", errors.New("the signature has no unused bits")
+		}
+
+		last := strings.IndexByte(alphabet, tok[len(tok)-1])
+		tok = tok[:len(tok)-1] + string(alphabet[last+1])
+	case "crlf":
+		first := strings.Index(tok, ".")
+		mid := first + 1 + (strings.LastIndex(tok, ".")-first-1)/2
+		tok = tok[:mid] + "\r\n" + tok[mid:]
+	}
+
+	return tok, nil
 }
 
 // ---------------------------------------------------------------------------------------------------------------
@@ -655,13 +679,28 @@ func (inf *c04Infra) mechanism(m map[string]any) (config.Mechanism, error) {
 }
 
 func c04Subst(s string, tokens map[string]string) string {
-	// placeholders have the form J<name>.pl.hd (a JWS compact form themselves)
-	if !strings.Contains(s, ".pl.hd") {
+	// placeholders have the form J<name>.plpl.hdhd (canonical JWS compact forms themselves) or a respelling of it
+	if !strings.Contains(s, ".pl") {
 		return s
+	}
+
+	jsonEsc := func(v string) string {
+		raw, _ := json.Marshal(v)
+
+		return string(raw[1 : len(raw)-1])
 	}
 
 	for ph, tok := range tokens {
 		s = strings.ReplaceAll(s, ph, tok)
+
+		// the spellings of the placeholder inside a query string / form body and inside a JSON or YAML body
+		if e := url.QueryEscape(ph); e != ph {
+			s = strings.ReplaceAll(s, e, url.QueryEscape(tok))
+		}
+
+		if e := jsonEsc(ph); e != ph {
+			s = strings.ReplaceAll(s, e, jsonEsc(tok))
+		}
 	}
 
 	return s
